@@ -151,7 +151,7 @@ Proof. reflexivity. Qed.
 Lemma getter_GetLabelProperty_ok : getter_GetLabelProperty =
   ["return s.persistOptions.GetLabelPropertyConfig().Clone()"].
 Proof. reflexivity. Qed.
-(* fix 9b30bb0: before it this getter returned the served pointer (no Clone) and api_SetReplicationMode unmarshalled the request into it
+(* fix e37f37e: before it this getter returned the served pointer (no Clone) and api_SetReplicationMode unmarshalled the request into it
    before SetReplicationModeConfig validated: a rejected POST /config/replication-mode changed what is served *)
 Lemma getter_GetReplicationModeConfig_ok : getter_GetReplicationModeConfig =
   ["return s.persistOptions.GetReplicationModeConfig().Clone()"].
